@@ -74,7 +74,7 @@ def model(run, cfg):
     run.add_tlc(cfg, res, "AtMostOnce ExactlyOnce Confluence InFlight; PROPERTY OwnRowOnly, Terminates (WF)")
     lang = set()
     orders = set()
-    for (done,) in res.tagged("ORDER"):
+    for (done, *_rep) in res.tagged("ORDER"):
         lang.add(canon([(w, j) for j, w in done]))
         orders.add(tuple(j for j, w in done))
     return sorted(orders), lang
@@ -159,7 +159,8 @@ def body(run: Run, replay):
         raise RuntimeError("hook H1 not available (PYYETI_VERIF=1 and the hook commit are required)")
     run.rule = ("TLC enumerates every interleaving of Dispatch/Complete for LF tasks x W workers and exports every feasible completion "
                 "order; each is FORCED on the real pool through hook H1 and srs (6 stype x 4 ic x 3 time x getresp) / fdepsd outputs "
-                "are compared bit-for-bit with parallel='no'; recorded (pid, task) events must be a behaviour of the model. "
+                "are compared bit-for-bit with parallel='no'; recorded (pid, task) events must be a behaviour of the model; frequency vectors "
+                "given as float32 / int64 (spec: Share normalises the inputs, SerialRep). "
                 "distinct non-trivial = (function, options, completion order) with a non-identity order")
     run.assumptions = ["fork start method (Linux default); memory visibility of RawArray writes after Pool exit is assumed",
                        "worker counts above 4 are not forced exhaustively", "hook H1 brackets the shared-array writes of each task"]
@@ -268,6 +269,40 @@ def body(run: Run, replay):
                                       {"fn": "fdepsd", "resp": respt, "order": order, "W": W, "LF": LF}, {"fn": "fdepsd"})
                         break
             run.sample({"fn": "fdepsd", "resp": respt, "W": W, "LF": LF, "orders_forced": len(pick)})
+    # ---- representation of the inputs (spec: Share normalises to binary64; SerialRep) ---------------
+    for rep, dt in (("f4", np.float32), ("i8", np.int64)):
+        cfg = "MC_ParPool_q3_%s.cfg" % rep
+        orders, lang = model(run, cfg)
+        if orders is None:
+            return
+        LF, W = 3, 1
+        freqr = np.array([8, 14, 22], dtype=dt)
+        for ci, opts in enumerate(cases):
+            if ci % (12 if quick else 3):
+                continue
+            ref = srsmod.srs(sig, sr, freqr, 12.5, parallel="no", peak="abs", **opts)
+            for W_, order in ((1, orders[0]), (2, None)):
+                out, ts = run_srs(np, srsmod, sig, sr, freqr, opts, W_, order, natural=order is None)
+                run.case(("srs-rep", rep, json.dumps(opts, sort_keys=True), W_), part="input representation %s" % rep)
+                if order is not None and not check_trace(run, ts, order, W_, lang, "srs (freq as %s)" % rep, out=out):
+                    return
+                for (nm, a), (_, b) in zip(flat(np, out), flat(np, ref)):
+                    if a != b:
+                        run.violation("srs parallel output `%s` is bit-identical to the serial result when the frequency vector is %s" % (nm, np.dtype(dt).name),
+                                      {"fn": "srs", "opts": opts, "W": W_, "freq_dtype": np.dtype(dt).name}, {"fn": "srs", "rep": rep})
+                        break
+        for respt in ("absacce", "pvelo"):
+            kw = dict(resp=respt, nbins=12, hpfilter=None, winends=None, rolloff="none", T0=20.0)
+            ref = fdemod.fdepsd(fsig, 200.0, freqr, 15.0, parallel="no", **kw)
+            out = fdemod.fdepsd(fsig, 200.0, freqr, 15.0, parallel="yes", maxcpu=2, **kw)
+            run.case(("fdepsd-rep", rep, respt), part="input representation %s" % rep)
+            for (nm, a), (nm2, b) in zip(flat_fde(np, out), flat_fde(np, ref)):
+                if nm in ("parallel", "ncpu"):
+                    continue
+                if a != b:
+                    run.violation("fdepsd parallel output `%s` is bit-identical to the serial result when the frequency vector is %s" % (nm, np.dtype(dt).name),
+                                  {"fn": "fdepsd", "resp": respt, "freq_dtype": np.dtype(dt).name}, {"fn": "fdepsd", "rep": rep})
+                    break
     if not quick:
         orders, lang = model(run, "MC_ParPool_t2.cfg")   # LF=6, W=4: model only + natural runs
         if orders is not None:
